@@ -101,7 +101,14 @@ def make_serializable(x):
     elif isinstance(x, dict):
         return {"type": "dict", "data": {k: make_serializable(v) for k, v in x.items()}}
     elif isinstance(x, set):
-        return {"type": "set", "data": [make_serializable(v) for v in x]}
+        data = [make_serializable(v) for v in x]
+        # sorted where the elements can be ordered, so that the output does not depend on
+        # the iteration order of the set (insertion history, hash seed)
+        try:
+            data = sorted(data)
+        except TypeError:
+            pass
+        return {"type": "set", "data": data}
     elif isinstance(x, (list, tuple)):
         # a new list, so that NumPy scalars inside are converted and no list is shared
         return [make_serializable(v) for v in x]
